@@ -67,6 +67,8 @@ def run(ctx):
     cases += [dict(je.gen_huge_limit_case(ctx.rng, share=ctx.rng.choice([0, 0, 0.5]), kind=k), kind=PID.lower()) for k in ["long", "long", "unit"] * ctx.n(1, 12)]
     # one pair of operations with more than 1024 / 2048 penalised start-time combinations (exact energies of a systematic cover)
     cases += [dict(je.gen_many_conflicts_case(ctx.rng, which=w), kind=PID.lower()) for w in (["overlap>1024", "precedence>1024"] if ctx.quick else ["overlap>1024", "overlap>2048", "precedence>1024", "precedence>2048"] * 3)]
+    # >= 3 operations on one machine with windows of different width / offset (full 2^n sweep)
+    cases += [dict(je.gen_shared_machine_case(ctx.rng, share=None), kind=PID.lower()) for _ in range(ctx.n(25, 300))]
     je.assign_objects(ctx.rng, cases)
     for c in cases:
         summ = je.examiner(c)(ctx, batch, c, WANT, ctx.rng)
